@@ -2629,6 +2629,12 @@ hsStateDetermined:
                     /* Don't have all the fragments yet */
                     return MATRIXSSL_SUCCESS;
                 }
+                /* The message is parsed from the reassembly buffer, and
+                   nothing else is: whatever its parser leaves unread there
+                   is not a further handshake message (a fragment header
+                   found there would free the very buffer it is read from).
+                   As before, the rest of the record is not looked at. */
+                saved_c = (unsigned char *) (inbuf + len);
                 c = ssl->fragMessage;
                 end = ssl->fragMessage + hsLen;
             }
@@ -3107,6 +3113,14 @@ SKIP_HSHEADER_PARSE:
         (void) hvreqMajVer; /* Silence a 'set but not used' warning. */
         (void) hvreqMinVer;
         ssl->cookieLen = *c; c++;
+        if (hsLen != 3 + (uint32) ssl->cookieLen)
+        {
+            /* The cookie is all there is in this message */
+            ssl->cookieLen = 0;
+            ssl->err = SSL_ALERT_DECODE_ERROR;
+            psTraceErrr("Invalid HelloVerifyRequest message length\n");
+            return MATRIXSSL_ERROR;
+        }
         if (ssl->cookieLen > 0)
         {
             if ((end - c) < ssl->cookieLen)
